@@ -2,7 +2,7 @@
    Statements only; proofs in Proofs/C19.v, model in Model/C19.v. The data arrays are elements of
    an arbitrary commutative ring's additive group; [NoneTagRefused] is the repaired setter. *)
 From Coq Require Import ZArith List Bool.
-From QV Require Import Base.Alg Model.C19 Proofs.C19.
+From QV Require Import Base.Alg Model.C19 Proofs.C19 Model.C19py Model.C19code Proofs.C19genA Proofs.C19genB Proofs.C19gen.
 Import ListNotations.
 
 (* For EVERY history of additions (any level, dtype, tag, accepted or refused), resolution changes
@@ -77,3 +77,48 @@ Example c19_example :
   map fst outs = [true; true; false; false; true; true; false; true] /\
   view_total s = 19%Z /\ view_signal s REPH = 16%Z /\ view_signal s NONR = 3%Z /\ res s = Signals.
 Proof. vm_compute. repeat split. Qed.
+
+(* ---- the code itself (static tie) ----
+   Model/C19code.v is the storage code of twod2.py (tables, _resolution2number, the eight reduction helpers, getter and
+   setter of twodspectrum_dictionary, set_data_flag, _convert_res_elementary, _convert_resolution, set_resolution,
+   _add_data, the fields set by __init__) transcribed node by node into the Python-fragment semantics of Model/C19py.v;
+   on every run harness/translate_c19.py transcribes the current source again and proves it equal to that text.
+   For EVERY history: executing the transcribed code on a new object shows, operation by operation (accepted / refused,
+   value read / exception), exactly what the model's [run] shows, and ends in the object [conc s] that represents the
+   model's final state.  So the theorems above, which are about [run], are about the code. *)
+Theorem c19_code_refines_model : forall (R : StarRing) (ops : list (@op R)),
+  match new_obj code_new_fields dummy with
+  | Some o => code_run o ops
+  | None => None
+  end = Some (conc (fst (run NoneTagRefused fresh ops)), snd (run NoneTagRefused fresh ops)).
+Proof. intros R. exact (@code_refines_model R). Qed.
+Print Assumptions c19_code_refines_model.
+
+(* every reachable model state satisfies the invariant under which the single calls refine the model: an initialised
+   store has its dictionary, tags are unique within a pathway type, an uninitialised store with a dictionary is not at
+   pathway level and (at type level) has all eight types *)
+Theorem c19_reachable_invariant : forall (R : StarRing) (ops : list (@op R)), Inv (fst (run NoneTagRefused fresh ops)).
+Proof. intros R ops. exact (Inv_run ops fresh Inv_fresh). Qed.
+Print Assumptions c19_reachable_invariant.
+
+(* a store that was never initialised (only resolution changes so far) holds nothing but zero arrays: the one place
+   where the code adds in place into an array that may be a stored one (_types_to_processes / _types_to_signals on an
+   uninitialised store) therefore adds zeros *)
+Theorem c19_uninitialised_store_is_zero : forall (R : StarRing) (ops : list (@op R)), Zst (fst (run NoneTagRefused fresh ops)).
+Proof. intros R. exact (@uninitialised_store_is_zero R). Qed.
+Print Assumptions c19_uninitialised_store_is_zero.
+
+(* non-vacuity: the transcribed code executed on a concrete history (additions, a refused re-used tag, a refused
+   lower-level addition, reads, reductions, a refused increase) *)
+Example c19_code_example :
+  let ops : list (@op ZR) :=
+    [OAdd (3%Z : ZR) None (DP R1g) (Some 1%Z); OAdd (5%Z : ZR) None (DP R2g) (Some 1%Z);
+     OAdd (7%Z : ZR) None (DP R1g) (Some 1%Z); OAdd (4%Z : ZR) (Some Types) (DP R1g) None;
+     ORead (DQ GSB) None false; ORead (DP R1g) (Some 1%Z) true;
+     OSetRes (Some Signals); OAdd (11%Z : ZR) None (DS REPH) None; OSetRes (Some Types); ORead DTot None false] in
+  match new_obj code_new_fields dummy with
+  | Some o => option_map snd (code_run o ops)
+  | None => None
+  end = Some [(true, @RErr ZR); (true, RErr); (false, RErr); (false, RErr); (true, @RVal ZR (Some 8%Z)); (true, @RVal ZR (Some 3%Z));
+              (true, RErr); (true, RErr); (false, RErr); (true, @RVal ZR (Some 19%Z))].
+Proof. vm_compute. reflexivity. Qed.
